@@ -254,7 +254,7 @@ func VerifC03_TwoInputs() {
 	in, it := anyRuntime("input", 4)
 	ot, ott := anyRuntime("other", 4)
 	op := []ast.BinOp{ast.Add, ast.Mul, ast.Sub, ast.Eq, ast.Lt}[zzverif.Choice("op", 5)]
-	form := zzverif.Choice("form", 5)
+	form := zzverif.Choice("form", 6)
 	k := &ast.LiteralExpr{Value: ast.IntLiteral{Value: zzverif.Int64("k")}}
 	name := ""
 	mk := func() *ast.Route {
@@ -289,6 +289,16 @@ func VerifC03_TwoInputs() {
 					ThenBlock: []ast.Statement{&ast.ReassignStatement{Target: "x", Value: pvar("y")}},
 					ElseBlock: []ast.Statement{&ast.ReassignStatement{Target: "y", Value: pvar("x")}}},
 				pret(&ast.ArrayExpr{Elements: []ast.Expr{pvar("x"), pvar("y")}})}
+		case 5:
+			name = "guard-clause-assigns-operand-then-operand-reassigned"
+			r.Body = []ast.Statement{
+				&ast.AssignStatement{Target: "p", Value: pvar("input")},
+				&ast.AssignStatement{Target: "t", Value: &ast.BinaryOpExpr{Op: op, Left: pvar("p"), Right: pvar("other")}},
+				&ast.IfStatement{Condition: &ast.BinaryOpExpr{Op: ast.Lt, Left: pvar("input"), Right: k},
+					ThenBlock: []ast.Statement{&ast.ReassignStatement{Target: "p", Value: &ast.LiteralExpr{Value: ast.IntLiteral{Value: 980}}}, pret(pvar("p"))}},
+				&ast.ReassignStatement{Target: "p", Value: pvar("other")},
+				&ast.AssignStatement{Target: "u", Value: &ast.BinaryOpExpr{Op: op, Left: pvar("p"), Right: pvar("other")}},
+				pret(&ast.ArrayExpr{Elements: []ast.Expr{pvar("u"), pvar("t")}})}
 		default:
 			name = "loop-ends-by-assigning-constant"
 			r.Body = []ast.Statement{
